@@ -89,6 +89,20 @@ SUMMARY.update({
 })
 
 
+SUMMARY.update({
+ "C04-5": "attribute_sequence sorts neighbours with a key that ignores the radical state: neighbours differing only in rad keep the bond-listing order of the input",
+ "C04-6": "fast path without bliss when n_atoms - n_partitions <= 2 — meant for one equivalent pair, also fires for two pairs (H-O-O-H): edge sets differ",
+ "C05-5": "attribute blocks collected mass first, then rad: not in ascending index order",
+ "C05-6": "tuples section treated as optional: bond-free labelled molecule emits 'H/(1:mass=2)'",
+ "C12-5": "discrete fast path reads labels from the unrefined partition: atoms merged by relabel_nodes (needs no symmetry and >= 1 refinement round)",
+ "C12-6": "memoised canonicalization keyed on (invariant codes, edges) returns the first molecule's charges/coordinates/bond types",
+ "C13-5": "partitioning rewritten over m.edges: atoms without bonds keep partition 0 and share a class with unrelated atoms",
+ "C13-6": "neighbour lists cached in m.graph survive copy()/relabel_nodes: a renumbered canonical graph is partitioned with the old neighbour lists",
+ "C16-5": "rng passed as a parameter defaulting to the random module; the retry call omits it and draws from the unseeded global generator",
+ "C16-6": "enforcement by derangement instead of comparing edge sets: a fixed-point-free automorphism (H-O-O-H) returns the same edge set",
+})
+
+
 def main():
     rows = []
     for d in sorted(glob.glob("/verif/seeded/*")):
